@@ -2,6 +2,7 @@ package main
 
 import (
 	"bufio"
+	"bytes"
 	"encoding/json"
 	"flag"
 	"fmt"
@@ -64,6 +65,12 @@ func cmdC03(args []string) {
 		muts := mf.Mutations()
 		extra["writes"] += len(muts)
 		nextF, nextS := 50, 50
+		lastRootK := -1 // index just after the last complete root record write
+		for k := 1; k <= len(muts); k++ {
+			if muts[k-1].Kind == memfile.Write && isRootRecord(muts[k-1].Data) {
+				lastRootK = k
+			}
+		}
 		for k := 0; k <= len(muts); k++ {
 			cuts := []int{0}
 			if k < len(muts) && muts[k].Kind == memfile.Write {
@@ -92,6 +99,17 @@ func cmdC03(args []string) {
 				for _, j := range junks {
 					emit(fmt.Sprintf("crashj 1 %d 0 %s", k, hexs(j)))
 					extra["junk_images"]++
+				}
+			}
+			if k == lastRootK && (h == 0 || *tier == "thorough") {
+				// tail-length boundary sweep: junk (no marker bytes) of every length in a window
+				// around each power of two from 512 to 8192 after the LAST complete root record —
+				// where a scanner that works in blocks would have its off-by-a-few errors
+				for e := 9; e <= 13; e++ {
+					for l := (1 << e) - 48; l <= (1<<e)+16; l++ {
+						emit(fmt.Sprintf("crashj 1 %d 0 %s", k, hexs(bytes.Repeat([]byte{'.'}, l))))
+						extra["boundary_tail_images"]++
+					}
 				}
 			}
 			for _, c := range cuts {
